@@ -117,6 +117,18 @@ BestRec(row, j, best) ==                   \* best = <<end, d>>; first position 
 BestEndOfRow(row) == BestRec(row, 2, << 0, row[1] >>)        \* row non-empty
 MinDistOfRow(row) == BestEndOfRow(row)[2]
 
+\* A hit sequence h consumed through an iterator adaptor (count, last, nth(n), skip(n),
+\* step_by(n)); the answer is always written as a sequence (count: << number >>).
+ViaSeq(h, how, n) ==
+    CASE how = "count"   -> << Len(h) >>
+      [] how = "last"    -> IF h = << >> THEN << >> ELSE << h[Len(h)] >>
+      [] how = "nth"     -> IF n < Len(h) THEN << h[n + 1] >> ELSE << >>
+      [] how = "skip"    -> SubSeq(h, n + 1, Len(h))
+      [] how = "step_by" -> [x \in 1..((Len(h) + n - 1) \div n) |-> h[(x - 1) * n + 1]]
+      [] OTHER           -> << "?" >>
+\* size_hint() = <<lower, upper or -1>> of an iterator that still has `left` items to give
+HintOK(v, left) == Len(v) = 2 /\ v[1] <= left /\ (v[2] < 0 \/ left <= v[2])
+
 \* ------------------------------------------------------ distance functions
 RECURSIVE LevRec(_, _, _, _)
 LevRec(ctx, b, j, prev) ==
